@@ -284,7 +284,7 @@ struct s // p20
 #define PLUS +
 #define LT <
 #define QM ?
-#define CL :
+#define GT >
 #define CM ,
 #define SH <<
 #define DOT .
